@@ -32,8 +32,15 @@ def splits : Nat → List α → List (List α × List α)
       ((splits n l).map fun p => (a :: p.1, p.2)) ++ ((splits (n + 1) l).map fun p => (p.1, a :: p.2))
 
 /-- 2·U of every assignment of the pooled values to groups of sizes n1, n2 -/
-def nullDist (x1 x2 : List α) : List Nat :=
-  (splits x1.length (x1 ++ x2)).map fun p => twoUPairs p.1 p.2
+def nullDistOf (n1 : Nat) (pool : List α) : List Nat :=
+  (splits n1 pool).map fun p => twoUPairs p.1 p.2
+
+def nullDist (x1 x2 : List α) : List Nat := nullDistOf x1.length (x1 ++ x2)
+
+/-- tie vector of a pooled sample: multiplicities of its distinct values, listed in the order
+    `distinctSorted` (the distinct values in increasing order) -/
+def tieVectorOf (distinctSorted pool : List α) : List Nat :=
+  distinctSorted.map fun a => (pool.filter (· = a)).length
 
 /-- is any value of the pooled sample repeated? -/
 def hasTies (x1 x2 : List α) : Bool :=
